@@ -144,14 +144,18 @@ CLAIMED = {
         "technique": "Coq proof (identity-consistency invariant over leaf substitution; cipher laws as hypotheses) + differential correspondence with a stand-in eyaml",
     },
     "C07": {
-        "text": ("20 theorems (Coq, no axioms) over a model of yaml_paths.search_for_paths / yield_children / "
+        "text": ("24 theorems (Coq, no axioms) over a model of yaml_paths.search_for_paths / yield_children / "
                  "record_anchors / search_anchor / process_yaml_file / print_results: the search is sound (only "
                  "satisfying places are reported), complete for value search on ANY document (a lone-scalar document "
                  "included: its place is the root; F-C07-3 repaired) and complete up to the listed finding F-C07-1 with "
-                 "key-name search (a matching key deliberately hides what lies beneath it), reports each place at most once; "
+                 "key-name search (a matching key deliberately hides what lies beneath it), reports each place at most once "
+                 "in EVERY mode (all alias modes, key modes, expansion; C07_once_any_mode); "
                  "under each of the four alias-option combinations every visible satisfying place is reported and "
                  "no excluded aliased repeat is (guard: anchor names not redefined = F-C07-4, with a _refuted witness; "
-                 "plus the loader guarantee shared_closed - an aliased repeat / merged-in entry holds nothing new; the "
+                 "plus the document well-formedness doc_wf - same oid = same tree among anchored occurrences, scalar keys, "
+                 "merged-in entries hold objects met before - from which the former assumption shared_closed is "
+                 "PROVED and which the harness evaluates, as extracted, on every encoded document of every run; "
+                 "C07_inline_merge_refuted: an inline merge source that first defines an anchor falsifies its third part; the "
                  "former guard `exposed` is gone since record_anchors keeps the anchors of unsearched subtrees on "
                  "record); --expand reports exactly the leaf descendants; printing emits "
                  "exactly the de-duplicated results; C07_resolves_text_partial - the reported text is the built "
@@ -234,7 +238,7 @@ CLAIMED = {
         "technique": "Coq proof (per-token lemmas over the rule-list parser, closed over all 256 characters; induction over segment lists) + differential correspondence",
     },
     "C06": {
-        "text": ("29 theorems (Coq, no axioms) over a model of differ.py (type dispatch, dicts, lists in all 2 x 5 "
+        "text": ("44 theorems (Coq, no axioms) over a model of differ.py (type dispatch, dicts, lists in all 2 x 5 "
                  "array/AoH modes, the zip_longest loop, the pop-a-DELETE-to-make-a-CHANGE step, both synchronisers, "
                  "sets, purge/add-everything, the value comparison Differ._same_data, DifferConfig lookups, print "
                  "selection and exit state): truthful entries, SAME equal / CHANGE differs as data for ALL document "
@@ -246,9 +250,15 @@ CLAIMED = {
                  "identity keys and, with the guard well-keyed lists = F4, for all ten incl. key/deep; reflexivity, "
                  "exit state = 1 iff a non-SAME entry; an entry's path text resolves (evaluator model) to the value "
                  "the truthfulness theorem speaks about (guard = F5); every remaining guard with a _refuted witness "
-                 "and a non-vacuity Example, every repaired finding with a positive Example.  Per-path "
-                 "[rules]/[keys] configurations are covered by the accounting theorem and the judge, not by the "
-                 "iff theorem.  Tie: pairs identical / derived by edits / unrelated x all mode pairs x "
+                 "and a non-vacuity Example, every repaired finding with a positive Example.  ARBITRARY resolved "
+                 "configurations (per-path [rules], per-list / per-record [keys]) are covered by "
+                 "C06_nonsame_iff_differ_cfg_partial: non-SAME iff the documents differ under the equivalence the "
+                 "configuration induces (modes chosen per list by the model's own lookup), guard kguard_c = F4 only "
+                 "(one-to-one identities, identity values of any kind), no guard at all when key/deep is never "
+                 "selected; data equality is proved an equivalence relation and the greedy bag comparison proved to "
+                 "decide multiset equality; C06_truthful_sync states what an entry's path and values mean in the "
+                 "synchronised modes (left / right index per list), with the witness that positional truthfulness "
+                 "fails under --aoh deep.  Tie: pairs identical / derived by edits / unrelated x all mode pairs x "
                  "configurations; entries compared as multisets of (action, parsed path, lhs, rhs); "
                  "Differ._same_data compared directly on the root pair and the facing children."),
         "design_ref": "DESIGN.md section 4 (C06), docs/C06.md",
